@@ -1387,8 +1387,277 @@ func c16Implied(c *Ctx, r *Report) {
 						}
 					}
 				}
+				// the test may stand at the call sites: the insertions of the default names may hang on a parameter
+				// (derive), then some call that passes true for it is reachable with a schema in place
+				if reach && fn.Object() != nil && !fn.Object().Exported() {
+					need := map[int]bool{} // indexes of boolean parameters that must be true for a derivation
+					for _, ci := range callsIn(fn) {
+						cal := ci.Common().StaticCallee()
+						if cal == nil || cal.Name() != "add" || recvName(cal) != "fieldList" || len(ci.Common().Args) < 2 || rootAlloc(ci.Common().Args[0]) != al {
+							continue
+						}
+						added := ci.Common().Args[1]
+						if elems, ok := sliceLitElems(added); ok && len(elems) == 1 {
+							added = elems[0]
+						}
+						if rootAlloc(added) == nil {
+							continue
+						}
+						for _, g := range blockGuards(ci.Block()) {
+							g = normGuard(g)
+							if pr, ok := g.cond.(*ssa.Parameter); ok && g.val {
+								for i, p := range fn.Params {
+									if p == pr {
+										need[i] = true
+									}
+								}
+							}
+						}
+					}
+					reach = false
+					for _, caller := range c.allFns {
+						for _, cs := range callsIn(caller) {
+							if cs.Common().StaticCallee() != fn {
+								continue
+							}
+							passes := true
+							for i := range need {
+								if i < len(cs.Common().Args) {
+									if k, ok := cs.Common().Args[i].(*ssa.Const); ok && k.Value != nil && k.Value.String() != "true" {
+										passes = false
+									}
+								}
+							}
+							if !passes {
+								continue
+							}
+							// reachable in the caller with Root.schema != nil
+							cutC := map[[2]*ssa.BasicBlock]bool{}
+							for _, bb := range caller.Blocks {
+								if len(bb.Instrs) == 0 {
+									continue
+								}
+								ifi, ok := bb.Instrs[len(bb.Instrs)-1].(*ssa.If)
+								if !ok {
+									continue
+								}
+								for i, succ := range bb.Succs {
+									g := normGuard(guard{ifi.Cond, i == 0, ifi})
+									if x, eq, isN := nilCmp(g.cond); isN && eq == g.val {
+										if _, o, f, ok := loadOfField(x); ok && o == "Root" && f == "schema" {
+											cutC[[2]*ssa.BasicBlock{bb, succ}] = true
+										}
+									}
+								}
+							}
+							seenC := map[*ssa.BasicBlock]bool{caller.Blocks[0]: true}
+							workC := []*ssa.BasicBlock{caller.Blocks[0]}
+							for len(workC) > 0 {
+								x := workC[len(workC)-1]
+								workC = workC[:len(workC)-1]
+								if x == cs.Block() {
+									reach = true
+									break
+								}
+								for _, s2 := range x.Succs {
+									if !cutC[[2]*ssa.BasicBlock{x, s2}] && !seenC[s2] {
+										seenC[s2] = true
+										workC = append(workC, s2)
+									}
+								}
+							}
+						}
+					}
+				}
 				r.check("C16.IMPLIED", fmt.Sprintf("%s: the derived schema is made again when an earlier load left one", fnName(fn)), st.Pos(), reach,
 					"the schema is derived only while Root.schema is nil: after a first load without a Query type, a Query type defined in a later load is not a root operation type, although the same definitions in one document make it one")
+				// what the application registered on the previous derived schema (its Go type) is carried over
+				carried := false
+				for _, b2 := range fn.Blocks {
+					for _, in2 := range b2.Instrs {
+						st2, ok := in2.(*ssa.Store)
+						if !ok {
+							continue
+						}
+						fa2, ok := st2.Addr.(*ssa.FieldAddr)
+						if !ok {
+							continue
+						}
+						if _, f2 := fieldOwner(fa2.X.Type(), fa2.Field); f2 != "meta" || rootAlloc(fa2.X) != al {
+							continue
+						}
+						if _, _, lf, ok := loadOfField(st2.Val); ok && lf == "meta" {
+							carried = true
+						}
+					}
+				}
+				r.check("C16.IMPLIED", fmt.Sprintf("%s: the Go type registered for the schema is carried over to the schema derived again", fnName(fn)), st.Pos(), carried,
+					"the schema derived again starts without the Go type the application registered for the previous one: RegisterType(x, \"\") before a load and after it differ, and a second registration of another type is accepted")
+				// only a load derives again: anywhere else the derivation is for a root that has no schema yet. A
+				// function that calls a deriving function without that test derives too; a function that puts a
+				// saved schema back is a load; an exported function that derives without being a load is the finding
+				restores := func(f *ssa.Function) bool {
+					for _, b3 := range f.Blocks {
+						for _, in3 := range b3.Instrs {
+							if st3, ok := in3.(*ssa.Store); ok {
+								if fa3, ok := st3.Addr.(*ssa.FieldAddr); ok {
+									if o3, f3 := fieldOwner(fa3.X.Type(), fa3.Field); o3 == "Root" && f3 == "schema" && rootAlloc(st3.Val) == nil {
+										if _, isCall := st3.Val.(*ssa.Call); !isCall {
+											return true
+										}
+									}
+								}
+							}
+						}
+					}
+					return false
+				}
+				derives := map[*ssa.Function]string{fn: fnName(fn)}
+				for changed := true; changed; {
+					changed = false
+					for _, caller := range c.allFns {
+						if _, ok := derives[caller]; ok || restores(caller) {
+							continue
+						}
+						for _, ci := range callsIn(caller) {
+							cal := ci.Common().StaticCallee()
+							chain, ok := derives[cal]
+							if cal == nil || !ok {
+								continue
+							}
+							guardedNil := hasGuard(ci.Block(), func(g guard) bool {
+								g = normGuard(g)
+								x, eq, isN := nilCmp(g.cond)
+								if !isN || eq != g.val {
+									return false
+								}
+								_, o, f, ok := loadOfField(x)
+								return ok && o == "Root" && f == "schema"
+							})
+							if guardedNil {
+								continue
+							}
+							derives[caller] = fnName(caller) + " -> " + chain
+							changed = true
+							break
+						}
+					}
+				}
+				var ds []*ssa.Function
+				for f := range derives {
+					ds = append(ds, f)
+				}
+				sort.Slice(ds, func(i, j int) bool { return fnName(ds[i]) < fnName(ds[j]) })
+				for _, f := range ds {
+					if f.Object() == nil || !f.Object().Exported() {
+						continue
+					}
+					r.flag("C16.IMPLIED", fmt.Sprintf("%s: outside a load the schema is derived only for a root that has none", fnName(f)), f.Pos(),
+						"a registration replaces the derived schema by a new one ("+derives[f]+", none of the calls under Root.schema == nil): what was registered before is on an object that is no longer the root's schema")
+				}
+				r.check("C16.IMPLIED", fmt.Sprintf("%s: the functions that reach the derivation with a schema in place are loads", fnName(fn)), st.Pos(), true, "")
+				// what an earlier derivation supplied is not taken over as if an extension had given it: the fields
+				// copied from the previous schema are those its record of derived fields does not name
+				nCopy, okCopy := 0, true
+				for _, ci := range callsIn(fn) {
+					cal := ci.Common().StaticCallee()
+					if cal == nil || cal.Name() != "add" || recvName(cal) != "fieldList" || len(ci.Common().Args) < 2 {
+						continue
+					}
+					if rootAlloc(ci.Common().Args[0]) != al {
+						continue
+					}
+					// the added value comes out of the previous schema's field list (not a fresh definition)
+					added := ci.Common().Args[1]
+					if elems, ok := sliceLitElems(added); ok && len(elems) == 1 {
+						added = elems[0] // add(defs ...*FieldDef)
+					}
+					if fresh := rootAlloc(added); fresh != nil {
+						continue
+					}
+					nCopy++
+					filtered := hasGuard(ci.Block(), func(g guard) bool {
+						g = normGuard(g)
+						lk, ok := g.cond.(*ssa.Lookup)
+						if !ok || g.val {
+							return false
+						}
+						_, o, _, ok := loadOfField(lk.X)
+						return ok && o == "Schema"
+					})
+					if !filtered {
+						okCopy = false
+					}
+				}
+				r.check("C16.IMPLIED", fmt.Sprintf("%s: fields taken over from the previous derived schema are those an extension gave", fnName(fn)), st.Pos(), nCopy == 0 || okCopy,
+					"the schema derived again takes over every field of the previous one, derived ones included: `extend schema { mutation: Mutation }` in a load after the one that brought the Mutation type is refused as a duplicate, in the same load it is accepted; `extend schema { mutation: Other }` is refused in one arrangement and decides the operation type in the other")
+				// ... and an extension of a derived schema is applied to one made for this load, not to the previous one
+				for _, ext := range c.allFns {
+					for _, b4 := range ext.Blocks {
+						for _, in4 := range b4.Instrs {
+							mi, ok := in4.(*ssa.MakeInterface)
+							if !ok || derefNamed(mi.X.Type()) != "Schema" || !c.isNamed(mi.Type(), "Type") {
+								continue
+							}
+							// only where the interface is the target of an Extend
+							isTarget := false
+							seenV := map[ssa.Value]bool{}
+							var uses func(v ssa.Value)
+							uses = func(v ssa.Value) {
+								if seenV[v] || v.Referrers() == nil {
+									return
+								}
+								seenV[v] = true
+								for _, ref := range *v.Referrers() {
+									switch t := ref.(type) {
+									case *ssa.Phi:
+										uses(t)
+									case ssa.CallInstruction:
+										if cm := t.Common(); cm.IsInvoke() && cm.Value == v && cm.Method.Name() == "Extend" {
+											isTarget = true
+										}
+									}
+								}
+							}
+							uses(mi)
+							if !isTarget {
+								continue
+							}
+							leaves, _ := phiLeaves(mi.X)
+							inPlace := ""
+							for _, lf := range leaves {
+								if ex, ok := lf.val.(*ssa.Call); ok {
+									if _, isD := derives[ex.Call.StaticCallee()]; isD {
+										continue
+									}
+								}
+								if _, o, f, ok := loadOfField(lf.val); ok && o == "Root" && f == "schema" {
+									// the previous schema itself: only when it is a declared one
+									var gs []guard
+									if lf.pred != nil {
+										gs = edgeGuards(lf.pred, lf.phi.Block())
+									} else {
+										gs = blockGuards(b4)
+									}
+									declared := false
+									for _, g := range gs {
+										g = normGuard(g)
+										if _, o2, f2, ok := loadOfField(g.cond); ok && o2 == "Schema" && f2 == "implied" && !g.val {
+											declared = true
+										}
+									}
+									if !declared {
+										inPlace = "Root.schema"
+									}
+									continue
+								}
+								inPlace = shortPath(vpath(lf.val))
+							}
+							r.check("C16.IMPLIED", fmt.Sprintf("%s: an extension of a derived schema is applied to a schema made for this load", fnName(ext)), mi.Pos(), inPlace == "",
+								"the extension is merged into "+inPlace+", which may be the schema an earlier load derived, derived fields included: the same definitions are then accepted or refused depending on how they are split over loads")
+						}
+					}
+				}
 			}
 		}
 	}
